@@ -67,13 +67,19 @@ class En:
 
 
 class State:
-    def __init__(self, env=None, alias=None):
+    def __init__(self, env=None, alias=None, quot=None, prod=None):
         self.env = dict(env or {})
         self.alias = dict(alias or {})
+        # tiny relational part: quot[q] = (a, b) when q = a / b (truncating); prod[p] = q when p = q * b
+        self.quot = dict(quot or {})
+        self.prod = dict(prod or {})
 
     def fork(self):
         import copy
-        return State(copy.deepcopy(self.env), dict(self.alias))
+        return State(copy.deepcopy(self.env), dict(self.alias), dict(self.quot), dict(self.prod))
+
+    def root(self, l):
+        return self.alias.get(l, l)
 
 
 class Interp:
@@ -314,6 +320,32 @@ class Interp:
         l = mir.op_local(discr_op)
         if l is None:
             return
+        if isinstance(v, B) and v.cmp and v.cmp[0] in ("exact", "inexact"):
+            kind, q, bl = v.cmp
+            truth = None
+            if val is None:
+                truth = True if listed == [0] else None
+            elif val == 0:
+                truth = False
+            elif val == 1:
+                truth = True
+            if truth is None:
+                return
+            inexact = (kind == "inexact") == truth
+            bv = st.env.get(bl)
+            if inexact and isinstance(bv, IV) and not bv.contains(0):
+                # a = q*b + r with 0 < |r| < |b|, hence |q*b| < |a| <= 2^31 and q is not an extreme value
+                targets = {q, st.root(q)}
+                for x in list(st.alias):
+                    if st.alias[x] == st.root(q):
+                        targets.add(x)
+                for x in targets:
+                    cur = st.env.get(x)
+                    if isinstance(cur, IV):
+                        lo, hi = max(cur.lo, I32[0] + 1), min(cur.hi, I32[1] - 1)
+                        if lo <= hi:
+                            st.env[x] = IV(lo, hi)
+            return
         if isinstance(v, B) and v.cmp:
             op, loc, c = v.cmp
             truth = None
@@ -389,6 +421,14 @@ class Interp:
             pl = mir.op_place(rv["op"])
             if pl is not None and not pl["proj"] and not dst["proj"]:
                 st.alias[dst["local"]] = st.alias.get(pl["local"], pl["local"])
+                for tab in (st.quot, st.prod):
+                    if pl["local"] in tab:
+                        tab[dst["local"]] = tab[pl["local"]]
+            elif pl is not None and not dst["proj"] and [e["k"] for e in pl["proj"]] == ["field"] and pl["proj"][0]["i"] == 0:
+                # `.0` of a checked-arithmetic tuple
+                for tab in (st.quot, st.prod):
+                    if pl["local"] in tab:
+                        tab[dst["local"]] = tab[pl["local"]]
             return
         if k in ("ref", "rawptr"):
             self.write(st, dst, self.read(st, rv["place"]))
@@ -409,7 +449,27 @@ class Interp:
             return
         if k == "binop":
             a, c = self.operand(st, rv["l"]), self.operand(st, rv["r"])
-            r = self.arith(rv["op"], a, c, rv.get("lty", "i32"), f, b)
+            ll0, rl0 = mir.op_local(rv["l"]), mir.op_local(rv["r"])
+            base_op = rv["op"].replace("WithOverflow", "").replace("Unchecked", "")
+            r = None
+            if base_op == "Mul" and ll0 is not None and rl0 is not None and not dst["proj"]:
+                # (a / b) * b lies between 0 and a
+                for q, other in ((ll0, rl0), (rl0, ll0)):
+                    if q in st.quot and st.root(other) == st.quot[q][1]:
+                        av = st.env.get(st.quot[q][0])
+                        if isinstance(av, IV):
+                            r = IV(min(av.lo, 0), max(av.hi, 0))
+                            if rv["op"].endswith("WithOverflow"):
+                                r = [r, False]
+                            st.prod[dst["local"]] = (q, st.quot[q][0], st.quot[q][1])
+            if base_op in ("Eq", "Ne") and ll0 is not None and rl0 is not None:
+                for pr, other in ((ll0, rl0), (rl0, ll0)):
+                    if pr in st.prod and st.root(other) == st.prod[pr][1]:
+                        r = B(("exact" if base_op == "Eq" else "inexact", st.prod[pr][0], st.prod[pr][2]))
+            if r is None:
+                r = self.arith(rv["op"], a, c, rv.get("lty", "i32"), f, b)
+            if base_op == "Div" and ll0 is not None and rl0 is not None and not dst["proj"]:
+                st.quot[dst["local"]] = (st.root(ll0), st.root(rl0))
             if isinstance(r, B):
                 # remember `local OP const` for refinement
                 ll = mir.op_local(rv["l"])
